@@ -19,6 +19,9 @@ pub struct Case {
     pub remover: Option<(usize, usize, u8)>,
     pub d: Doc,
     pub cuts: Vec<usize>,
+    /// never-matching filler registrations placed before the selectors (handler ids beyond one
+    /// or two 32-bit words of the VM's match sets)
+    pub pad: usize,
 }
 
 pub fn decode(tape: &[u16]) -> Case {
@@ -38,15 +41,20 @@ pub fn decode(tape: &[u16]) -> Case {
             [m & 1 != 0, m & 2 != 0, m & 4 != 0, m & 8 != 0]
         })
         .collect();
+    let pad = if t.chance(1, 10) { *t.pick(&[29usize, 30, 31, 32, 33, 61, 62, 63, 64, 65]) } else { 0 };
     let remover = if t.chance(1, 4) { Some((t.below(sels.len()), t.below(3), t.below(3) as u8)) } else { None };
     let spec = sched_spec(&mut t);
     let d = doc(&mut t, &DocOpts { max_items: 14, max_depth: 6, odd_attrs: false, ..DocOpts::default() });
     let cuts = spec.resolve(d.bytes.len());
-    Case { sels, docs, remover, d, cuts }
+    Case { sels, docs, remover, d, cuts, pad }
 }
 
 pub fn cfg_of(c: &Case) -> Cfg {
     let mut cfg = Cfg::default();
+    for k in 0..c.pad {
+        let sel = match k % 3 { 0 => format!("zfill{k}"), 1 => format!("zfill{k}[zz]"), _ => format!("p > zfill{k}") };
+        cfg.sels.push(SelSpec { sel, el: true, end_tag: k % 2 == 0, text: k % 4 == 0, comments: k % 5 == 0, ops: vec![] });
+    }
     for (i, (l, m)) in c.sels.iter().enumerate() {
         let mut s = SelSpec { sel: render(l), el: m[0], end_tag: m[1], text: m[2], comments: m[3], ops: vec![] };
         if let Some((ri, nth, kind)) = c.remover {
@@ -83,7 +91,7 @@ pub fn expected(c: &Case, tree: &Tree) -> Vec<Vec<Ev>> {
                 for (k, (_, mask)) in c.sels.iter().enumerate() {
                     if mask[0] && m[k][e] {
                         g.push(Ev::Element {
-                            h: format!("s{k}"),
+                            h: format!("s{}", k + c.pad),
                             name: el.name.clone(),
                             name_pc: el.name_pc.clone(),
                             attrs: el.attrs.iter().map(|a| AttrEv { name: a.name.clone(), name_pc: a.name_pc.clone(), value: a.value.clone(), name_loc: Some(a.name_range), value_loc: Some(a.value_range) }).collect(),
@@ -100,7 +108,7 @@ pub fn expected(c: &Case, tree: &Tree) -> Vec<Vec<Ev>> {
                     let st = &d.toks[tree.elems[*e].tok];
                     for (k, (_, mask)) in c.sels.iter().enumerate() {
                         if mask[1] && m[k][*e] {
-                            g.push(Ev::EndTag { h: format!("s{k}"), name: tok.name.to_ascii_lowercase(), name_pc: tok.name.clone(), loc, el_loc: (st.start, st.end) });
+                            g.push(Ev::EndTag { h: format!("s{}", k + c.pad), name: tok.name.to_ascii_lowercase(), name_pc: tok.name.clone(), loc, el_loc: (st.start, st.end) });
                         }
                     }
                 }
@@ -111,9 +119,9 @@ pub fn expected(c: &Case, tree: &Tree) -> Vec<Vec<Ev>> {
                     let want = if is_text { mask[2] } else { mask[3] };
                     if want && tree.scope[i].iter().any(|e| m[k][*e]) {
                         g.push(if is_text {
-                            Ev::Text { h: format!("s{k}"), text: tok.name.clone(), ttype: tok.text_type.to_string(), last: true, loc }
+                            Ev::Text { h: format!("s{}", k + c.pad), text: tok.name.clone(), ttype: tok.text_type.to_string(), last: true, loc }
                         } else {
-                            Ev::Comment { h: format!("s{k}"), text: tok.name.clone(), loc }
+                            Ev::Comment { h: format!("s{}", k + c.pad), text: tok.name.clone(), loc }
                         });
                     }
                 }
@@ -232,6 +240,7 @@ pub fn check_case(c: &Case, st: &mut Stats) -> PResult {
     let closed_by_ancestor = tree.elems.iter().any(|e| e.closed_by.is_some() && !e.own_end);
     let m: Vec<Vec<bool>> = c.sels.iter().map(|(l, _)| (0..tree.elems.len()).map(|e| matches(l, &tree, e)).collect()).collect();
     let nested_matched = tree.elems.iter().enumerate().any(|(i, e)| m.iter().any(|mk| mk[i] && { let mut p = e.parent; let mut f = false; while let Some(pp) = p { if mk[pp] { f = true; break; } p = tree.elems[pp].parent; } f }));
+    st.label_if(c.pad > 0, "many_registrations");
     st.label_if(same_kind_multi, "multi_handler_on_one_token");
     st.label_if(closed_by_ancestor, "closed_by_ancestor_end_tag");
     st.label_if(nested_matched, "nested_matched_elements");
@@ -252,7 +261,7 @@ impl Prop for C05 {
         "C05"
     }
     fn rule(&self) -> String {
-        "case = (1-4 selectors each with a subset of element/end-tag/text/comments handlers, 0-2 document handler sets, optionally one content-removing mutation, structured document incl. unclosed/mis-nested/foreign/raw-text, schedule); oracle: the invocation log equals the one computed from R-scope (R-tree + R-css): selector text/comment handlers get exactly the nodes inside open matched elements, document handlers everything, end-tag handlers once at the closing token (own or ancestor's), never for void/never-closed, document order, registration order within a token with selector handlers before document handlers, end handler last. non-trivial = >= 2 handlers on one token, or an element closed by an ancestor's end tag, or nested matched elements; distinct by hash(doc,cfg)".into()
+        "case = (1-4 selectors each with a subset of element/end-tag/text/comments handlers, optionally preceded by 29-65 never-matching filler registrations, 0-2 document handler sets, optionally one content-removing mutation, structured document incl. unclosed/mis-nested/foreign/raw-text, schedule); oracle: the invocation log equals the one computed from R-scope (R-tree + R-css): selector text/comment handlers get exactly the nodes inside open matched elements, document handlers everything, end-tag handlers once at the closing token (own or ancestor's), never for void/never-closed, document order, registration order within a token with selector handlers before document handlers, end handler last. non-trivial = >= 2 handlers on one token, or an element closed by an ancestor's end tag, or nested matched elements; distinct by hash(doc,cfg)".into()
     }
     fn assumptions(&self) -> Vec<String> {
         vec!["when one end tag closes several elements the order between elements is not fixed by the property: compared per element and as a multiset per token".into()]
